@@ -1,4 +1,38 @@
-(* Properties/C02.v — statements follow *)
-From GN Require Import Common.Base Model.Paths Model.Require Spec.NodeResolve.
-Theorem C02_placeholder : True. Proof. exact I. Qed.
-Print Assumptions C02_placeholder.
+(* Properties/C02.v — require() selects the file the Node.js CommonJS resolution algorithm selects. *)
+From GN Require Import Common.Base Model.Paths Model.Require Spec.NodeResolve Proofs.ResolveProofs.
+Open Scope Z_scope.
+
+(* for every file tree, every absolute requiring directory and every request — relative, absolute or bare — the probing
+   order of the code (files, .js, .json, directory with package.json "main" as file then as directory, index.js, index.json;
+   the upward walk through node_modules as the loop is written) selects the file, or the failure, that the algorithm of the
+   Node.js manual selects. (A directory literally named node_modules directly inside node_modules is outside the claim.) *)
+Theorem C02_selects_node_file : forall fs y x,
+  rooted y = true -> no_double_nm (rev (segs y)) -> model_resolve fs y x = spec_resolve fs y x.
+Proof. exact model_resolve_is_node. Qed.
+Print Assumptions C02_selects_node_file.
+
+(* a bare name is searched only in node_modules directories, never as a relative file *)
+Theorem C02_bare_never_relative : forall y d,
+  rooted y = true -> In d (walk_dirs (S (length (segs y))) y) -> last (segs d) [] = node_modules.
+Proof. exact bare_only_in_node_modules. Qed.
+Print Assumptions C02_bare_never_relative.
+
+(* no candidate exists: not found ('Invalid module') *)
+Theorem C02_invalid : forall fs cs, (forall p, In (CMod p) cs -> fs_get fs (render p) = None) -> select fs cs = SNotFound.
+Proof. exact nothing_found. Qed.
+Print Assumptions C02_invalid.
+
+(* a loader failure other than 'does not exist' on the first existing candidate is reported, not skipped *)
+Theorem C02_io_error_reported : forall fs cs1 p cs2,
+  (forall q, In (CMod q) cs1 -> fs_get fs (render q) = None) -> fs_get fs (render p) = Some FErr ->
+  select fs (cs1 ++ CMod p :: cs2) = SIOError (render p).
+Proof. exact io_error_reported. Qed.
+Print Assumptions C02_io_error_reported.
+
+Example C02_nonvacuous :
+  let fs := [([47;97;47;110;111;100;101;95;109;111;100;117;108;101;115;47;109;46;106;115], FJs []);          (* /a/node_modules/m.js *)
+             ([47;110;111;100;101;95;109;111;100;117;108;101;115;47;109;47;105;110;100;101;120;46;106;115], FJs [])] in  (* /node_modules/m/index.js *)
+  let y := parse [47;97;47;98;47;110;111;100;101;95;109;111;100;117;108;101;115;47;120] in     (* /a/b/node_modules/x *)
+  rooted y = true /\ no_double_nm (rev (segs y)) /\
+  spec_resolve fs y [109] = SFile [47;97;47;110;111;100;101;95;109;111;100;117;108;101;115;47;109;46;106;115].
+Proof. cbv zeta. split; [reflexivity|]. split; [vm_compute; repeat split; intros [H1 H2]; (discriminate H1 || discriminate H2)|vm_compute; reflexivity]. Qed.
